@@ -160,6 +160,7 @@ func (ex *Exec) runPath(r *Runner, h *Harness, prefix []decision) {
 	ex.pending = nil
 	ex.inputs = nil
 	ex.inputTags = nil
+	ex.auxVars = nil
 	ex.covers = map[string]bool{}
 	ex.regions = nil
 	ex.violations = nil
@@ -255,6 +256,26 @@ func (ex *Exec) addPC(c *Term) {
 		return
 	}
 	ex.pc = append(ex.pc, c)
+	// keep the invariant "ex.model satisfies ex.pc"
+	if ex.model != nil {
+		if v, ok := ex.evalModel(c); !ok || v == 0 {
+			ex.model = nil
+		}
+	}
+}
+
+// allVars: inputs plus auxiliary variables (uninterpreted digests, abstract decoder results).
+func (ex *Exec) allVars() []*Term {
+	if len(ex.auxVars) == 0 {
+		return ex.inputs
+	}
+	return append(append([]*Term(nil), ex.inputs...), ex.auxVars...)
+}
+
+func (ex *Exec) newAux(name string, w uint16) *Term {
+	v := ex.tt.Var(name, w)
+	ex.auxVars = append(ex.auxVars, v)
+	return v
 }
 
 // evalModel evaluates c under the cached model, if there is one and c has no UF applications.
@@ -276,7 +297,7 @@ func (ex *Exec) check(extra *Term, wantModel bool) (SatResult, *Model) {
 		if extra != nil {
 			conds = append(append([]*Term(nil), ex.pc...), extra)
 		}
-		return ex.solver.Check(conds, wantModel, ex.inputs, nil)
+		return ex.solver.Check(conds, wantModel, ex.allVars(), nil)
 	}
 	if extra.IsFalse() {
 		return Unsat, nil
@@ -524,7 +545,7 @@ func (ex *Exec) Concretize(t *Term, what string) uint64 {
 		}
 		if !got {
 			conds := append(append([]*Term(nil), ex.pc...), blocked)
-			r, mm := ex.solver.Check(conds, true, ex.inputs, []*Term{t})
+			r, mm := ex.solver.Check(conds, true, ex.allVars(), []*Term{t})
 			if r == Unsat {
 				break
 			}
